@@ -895,7 +895,7 @@ func (dc *driverContextContextual) transition(driver stateTableDriver, entry tab
 	// the substitution table or one of its lookups may be missing (NULL offset)
 	if markIndex != 0xFFFF && int(markIndex) < len(dc.table.Substitutions) && dc.table.Substitutions[markIndex] != nil {
 		lookup := dc.table.Substitutions[markIndex]
-		replacement, hasRep = lookup.Class(gID(buffer.Info[dc.mark].Glyph))
+		replacement, hasRep = lookup.Class(gid16(buffer.Info[dc.mark].Glyph))
 	}
 	if hasRep {
 		buffer.unsafeToBreak(dc.mark, min(buffer.idx+1, len(buffer.Info)))
@@ -910,7 +910,7 @@ func (dc *driverContextContextual) transition(driver stateTableDriver, entry tab
 	idx := min(buffer.idx, len(buffer.Info)-1)
 	if currentIndex != 0xFFFF && int(currentIndex) < len(dc.table.Substitutions) && dc.table.Substitutions[currentIndex] != nil {
 		lookup := dc.table.Substitutions[currentIndex]
-		replacement, hasRep = lookup.Class(gID(buffer.Info[idx].Glyph))
+		replacement, hasRep = lookup.Class(gid16(buffer.Info[idx].Glyph))
 	}
 
 	if hasRep {
@@ -1251,7 +1251,7 @@ func (c *aatApplyContext) applyNonContextualSubtable(data font.MorxNonContextual
 			}
 		}
 
-		replacement, has := data.Class.Class(gID(info[i].Glyph))
+		replacement, has := data.Class.Class(gid16(info[i].Glyph))
 		if has {
 			info[i].Glyph = GID(replacement)
 			if hasGlyphClass {
@@ -1587,8 +1587,8 @@ func (dc *driverContextKerx4) transition(driver stateTableDriver, entry tables.A
 			/* Indexed into 'ankr' table. */
 			action := dc.table.Anchors.(tables.KerxAnchorAnchors).Anchors[ankrActionIndex]
 
-			markAnchor := dc.c.ankrTable.GetAnchor(gID(dc.c.buffer.Info[dc.mark].Glyph), int(action.Mark))
-			currAnchor := dc.c.ankrTable.GetAnchor(gID(dc.c.buffer.cur(0).Glyph), int(action.Current))
+			markAnchor := dc.c.ankrTable.GetAnchor(gid16(dc.c.buffer.Info[dc.mark].Glyph), int(action.Mark))
+			currAnchor := dc.c.ankrTable.GetAnchor(gid16(dc.c.buffer.cur(0).Glyph), int(action.Current))
 
 			o.XOffset = dc.c.font.emScaleX(markAnchor.X) - dc.c.font.emScaleX(currAnchor.X)
 			o.YOffset = dc.c.font.emScaleY(markAnchor.Y) - dc.c.font.emScaleY(currAnchor.Y)
